@@ -98,6 +98,7 @@ type Corpus struct {
 	Root, Root2 *CA   // Root2 is a second root (not trusted unless configured)
 	Inter       []*CA // intermediates under Root: Inter[0], Inter[1] (under Inter[0])
 	Inter2      *CA   // intermediate under Root2
+	Inter0b     *CA   // Inter[0] re-issued: same subject and key, another certificate
 	PreIssuer   *CA   // precertificate signing certificate under Inter[0]
 	LeafKey     *ecdsa.PrivateKey
 
@@ -119,6 +120,7 @@ func Get() *Corpus {
 		i1 := mkCA("Verif Intermediate B", 11, i0, false)
 		c.Inter = []*CA{i0, i1}
 		c.Inter2 = mkCA("Verif Intermediate Z", 12, c.Root2, false)
+		c.Inter0b = mkCA("Verif Intermediate A", 110, c.Root, false)
 		c.PreIssuer = mkCA("Verif Precert Signer", 13, i0, true)
 		c.LeafKey = Key("leaf")
 		corp = c
